@@ -20,6 +20,7 @@ func init() {
 		run: runC10,
 		rule: "all byte strings over {E2,80,B9,BA,'a',' ',LF,'?',C3} up to the length bound (exhaustive) x every start offset x both line-split settings for the internal routine, " +
 			"every sequence of up to 4 (thorough 5) tokens over {U+FFFD, both markers, 2-, 3- and 4-byte runes, fragments of those, 'a', LF, '?'}, " +
+			"runs of 0-150 ordinary bytes followed by a marker / partial marker / adjacent markers in 5 x 4 contexts, " +
 			"plus EscapeMarkers, EscapeBytes and ManualBuffer (safe and unsafe mode, every 2-way split of the payload; 3-way in the thorough tier) on the same strings, and random longer strings; " +
 			"non-trivial = the string contains a marker, a line feed, or ends in a truncated multi-byte sequence; distinct = distinct strings",
 	})
@@ -210,7 +211,28 @@ func c10check(w *Worker, b []byte, threeWay bool) {
 			viol("buffer", "unsafe write left text outside envelopes: "+q(one))
 		}
 		c1 := canon(one)
+		// split points: every position (short strings) or a stride of them plus the last 8 and, up to 16 times,
+		// the 3 positions in and after each E2 byte (long strings)
+		var cuts []int
 		for i := 0; i <= len(b); i += stride {
+			cuts = append(cuts, i)
+		}
+		if stride > 1 {
+			for i := len(b) - 8; i <= len(b); i++ {
+				if i > 0 {
+					cuts = append(cuts, i)
+				}
+			}
+			for i, n := 0, 0; i < len(b) && n < 16; i++ {
+				if b[i] == 0xe2 {
+					n++
+					for k := 1; k <= 3 && i+k <= len(b); k++ {
+						cuts = append(cuts, i+k)
+					}
+				}
+			}
+		}
+		for _, i := range cuts {
 			two := manualWrite(kind, [][]byte{b[:i], b[i:]}, i)
 			w.Eval(1)
 			if canon(two) != c1 {
@@ -301,6 +323,38 @@ func runC10(c *Ctx) {
 		}
 		c10check(w, b, false)
 		w.Count("token_strings", 1)
+	})
+	// runs of ordinary bytes of every length up to 150 (word-sized and block-sized fast paths, growth steps) followed
+	// by a marker, a partial marker or two adjacent markers, in four contexts before and four after
+	type runCase struct {
+		l                int
+		pre, mark, after string
+		lf               bool
+	}
+	var runs []runCase
+	for l := 0; l <= 150; l++ {
+		for _, pre := range []string{"", "é", "\n", startM, "\xe2"} {
+			for _, mark := range []string{startM, endM, "\xe2\x80", startM + endM, endM + endM} {
+				for _, after := range []string{"", "z", "\n", "\xb9"} {
+					runs = append(runs, runCase{l, pre, mark, after, false})
+				}
+			}
+		}
+		runs = append(runs, runCase{l, "", startM, "\n", true}, runCase{l, "", endM + startM, "\nx", true})
+	}
+	c.ParallelFor(int64(len(runs)), func(w *Worker, i int64) {
+		rc := runs[i]
+		b := []byte(rc.pre)
+		for j := 0; j < rc.l; j++ {
+			ch := "abc d?0-"[j%8]
+			if rc.lf && j == rc.l/2 {
+				ch = '\n'
+			}
+			b = append(b, ch)
+		}
+		b = append(append(b, rc.mark...), rc.after...)
+		c10check(w, b, false)
+		w.Count("ascii_run_strings", 1)
 	})
 	nRand := c.pick(60000, 3000000)
 	c.ParallelFor(nRand, func(w *Worker, i int64) {
